@@ -519,6 +519,22 @@ class EngineBase:
     def ev_Call(self, e, st):
         return self.eval_call(e, st)
 
+    def ev_Yield(self, e, st):
+        """`yield` inside a @contextmanager / @asynccontextmanager body: the with-block runs here (any code, any number of
+        suspensions), then the generator is resumed normally or with the block's exception (A-CM)"""
+        out = []
+        vals = self.eval(e.value, st) if e.value is not None else [Res(st, NONE_SV)]
+        for r in vals:
+            if r.exc is not None:
+                out.append(r)
+                continue
+            r.st.uses.add("A-CM")
+            r.st.trace.append(("yield", r.val))
+            if self.spec is not None and hasattr(self.spec, "at_yield"):
+                self.spec.at_yield(self, r.st, r.val)
+            out.extend(self.suspend(r.st, r.val, "yield"))
+        return out
+
     def ev_Lambda(self, e, st):
         return [Res(st, self.make_closure(st, e, f"{self.fi.qual}.<lambda@{self.lambda_ordinal(e)}>"))]
 
